@@ -1546,3 +1546,52 @@ func c09DeclaredZero(c *Ctx) {
 	c.Cond(covered && n > 0, ob, key, c.FnPos(w), fmt.Sprintf("%d ErrContentLength return(s), one on the declared-zero edge", n),
 		"Write enforces a declared Content-Length only when it is positive: with 'Content-Length: 0' set by the handler a Write is accepted and its bytes follow a head that declares an empty body — the client reads them as the start of the next response (malformed HTTP version \"helloHTTP/1.1\"); net/http returns ErrContentLength")
 }
+
+// ---------------------------------------------------------------- C05.O8
+
+// c05ExecutorsRunWhatTheyGet: MustExecute always runs its job.  It hands the
+// drainer to Engine.Execute, so every function that is ever stored there must
+// do something with its argument — call it, start it, or pass it on.  An
+// executor that drops what it is given makes MustExecute queue a job that
+// never runs (and every later job of that connection behind it).
+func c05ExecutorsRunWhatTheyGet(c *Ctx) {
+	const ob = "C05.O8"
+	n := 0
+	for _, f := range append(c.nbioFuncs(), c.pkgFuncs("nbhttp")...) {
+		k := 0
+		for _, st := range c.P.StoresTo(f, "nbio.Engine.Execute") {
+			var fn *ssa.Function
+			switch v := ir.Resolve(st.Val).(type) {
+			case *ssa.MakeClosure:
+				fn, _ = v.Fn.(*ssa.Function)
+			case *ssa.Function:
+				fn = v
+			}
+			k++
+			key := c.siteKey(f, "an engine executor runs what it is given", k)
+			if fn == nil {
+				// a value computed elsewhere (a pool's Go method, a configured executor): not a literal that can drop
+				c.OK(ob, key, c.Pos(st), "not a function literal: "+c.P.Desc(st.Val))
+				n++
+				continue
+			}
+			n++
+			used := false
+			if len(fn.Params) > 0 {
+				p := fn.Params[len(fn.Params)-1]
+				if refs := p.Referrers(); refs != nil {
+					for _, r := range *refs {
+						if _, dbg := r.(*ssa.DebugRef); !dbg {
+							used = true
+						}
+					}
+				}
+			}
+			c.Cond(used, ob, key, c.Pos(st), "the literal uses its argument",
+				"the function stored in Engine.Execute at "+c.Pos(st)+" ignores the job it is given: MustExecute (which 'always runs' its job) queues the job, hands the drainer to this executor, and nothing ever runs — the connection's job list stays non-empty, so every later job of the connection is queued behind it for ever (nbhttp replaces the executor like this in its stop hook)")
+		}
+	}
+	if n < 2 {
+		c.Unres(ob, "assignments of Engine.Execute", fmt.Sprintf("found %d, expected >= 2", n))
+	}
+}
